@@ -10,14 +10,17 @@ CLAIMED = {
             "Seeded simulation in the fault-free configuration: every run synthesises a product "
             "(independent encoder), serves it through one of five storage back-ends with one "
             "records_per_chunk and compares every loaded sample word for word with the truth "
-            "model. Sampling, not proof; the simulator contributes back-end/request-size variation "
+            "model (full load, blocks kept across later reads, a second same-named product in the "
+            "same interpreter; worlds from 1x1 to 10 MB files, varied line prefixes). Sampling, "
+            "not proof; the simulator contributes back-end/request-size variation "
             "and the recorded request stream, no interleavings.",
             "seeded deterministic simulation, fault-free configuration; truth-model oracle"),
     "C02": ("exploration", "3.1",
             "Seeded simulation, one actor: generated and (for small images) exhaustively enumerated "
             "index expressions are applied to the lazily opened image, to an in-memory twin and to "
             "a control backend that decides what xarray itself accepts; results must agree in "
-            "shape, dims, coords and values.",
+            "shape, dims, coords and values, and results handed out earlier must still hold after "
+            "later reads through the same variable.",
             "seeded deterministic simulation, operation-by-operation reference model (in-memory "
             "twin + control backend)"),
     "C06": ("exploration", "3.1",
@@ -27,20 +30,25 @@ CLAIMED = {
             "seeded deterministic simulation, differential (relational) oracle"),
     "C07": ("exploration", "3.2",
             "Seeded simulation over cache producer x location x back-end x rpc with process "
-            "restarts; oracles over returned trees and over the recorded I/O history (no image "
-            "reads at a cached open, no index reads with use_cache=False).",
+            "restarts, relocation of the product with its adjacent index, partial selections through "
+            "the cache and in-place modification of an earlier result by the caller; oracles over "
+            "returned trees and over the recorded I/O history (no image reads at a cached open, "
+            "no index reads with use_cache=False).",
             "seeded deterministic simulation with restart; differential oracle + recorded I/O "
             "history"),
     "C09": ("fault_enumeration", "3.3",
             "Fault injection at the cache write: planted prefixes (thorough: every byte length of "
-            "the index document), simulated kills, ENOSPC, paused writers and two interleaved "
-            "writers under a seeded scheduler; afterwards default opens must equal the uncached "
+            "the index document), simulated kills and ENOSPC at byte k of the n-th file or just "
+            "before the n-th disk-mutating operation (mkdir/open/write chunk/close/rename/unlink) "
+            "of the option or CLI writer, paused writers and two or three interleaved writers plus "
+            "readers under a seeded scheduler; afterwards default opens must equal the uncached "
             "reference and create_cache must repair.",
             "deterministic simulation with fault injection (crash points x schedules), seeded "
             "search + exhaustive prefix enumeration"),
     "C10": ("exploration", "3.4",
-            "Seeded random histories of open/cli/delete/late-load/restart against a cache-state "
-            "model; invariants after every step.",
+            "Seeded random histories of open/cli/delete/late-load/caller-scribble/restart against "
+            "a cache-state model; invariants after every step (tree == reference(rpc), product "
+            "directory, user cache directory, writes anywhere else, option dictionaries).",
             "seeded deterministic simulation of operation histories against a reference model"),
     "C11": ("exploration", "3.5",
             "Recorded request history of loads and opens on instrumented storage, checked against "
@@ -48,13 +56,17 @@ CLAIMED = {
             "seeded deterministic simulation on recorded storage; history oracle"),
     "C18": ("fault_enumeration", "3.6",
             "Storage faults (truncation at every record boundary +-1 and sampled interior points; "
-            "every single missing file) crossed with records_per_chunk; the open must raise or "
-            "return a fully loadable identical tree, within the event budget.",
+            "every single missing file; an EIO on the n-th read request) crossed with "
+            "records_per_chunk; the open must raise or return a fully loadable identical tree, "
+            "within an event budget proportional to the undamaged open (plus a wall-clock "
+            "watchdog for loops that touch no seam).",
             "deterministic simulation with storage fault injection, enumerated fault points"),
     "C19": ("exploration", "3.7",
-            "Baton-passing scheduler over 2-3 real loader threads on one tree / pickled copies; "
-            "seeded interleavings at every file operation and lock acquire (thorough: PCT and "
-            "line-level pre-emption); results must equal sequential loads, no deadlock.",
+            "Baton-passing scheduler over 2-3 real loader threads (plus any thread the code under "
+            "test starts itself) on one tree / pickled copies; seeded interleavings at every file "
+            "operation and every contended Lock/RLock/Condition wait (uniform random, PCT, "
+            "line-level pre-emption); results must equal sequential loads, no deadlock or lost "
+            "wake-up, within a step budget proportional to the sequential work.",
             "deterministic simulation of thread schedules (seeded random + PCT), sequential "
             "reference"),
 }
